@@ -1,3 +1,4 @@
 import Gen.Flags
 import Gen.Excerpt
 import Gen.MetaTable
+import Gen.Binders
